@@ -46,6 +46,7 @@ def parseOp1 (j : Json) : Except String Op := do
   | "delegate" => pure (.delegate (← getF j "creator") (← getF j "val") (← getF j "amount"))
   | "undelegate" => pure (.undelegate (← getF j "creator") (← getF j "val") (← getF j "amount"))
   | "redelegate" => pure (.redelegate (← getF j "creator") (← getF j "val") (← getF j "val2") (← getF j "amount"))
+  | "govfishmen" => pure (.govfishmen (← getF j "fishmen"))
   | "restart" => pure .restart
   | "genesis" => pure .genesis
   | other => pure (.unmodelled other)
